@@ -76,7 +76,10 @@ def tcpcLine (inp obs : List String) : Bool × Bool × String × String :=
   | [t, conc, ct, b6] :: cands, [[k, w, el], accepted] =>
     let kinds := cands.filterMap List.head?
     let n := kinds.length
-    let bind6 := b6 == "1"
+    let loc := if b6 == "0" then "--" else if b6 == "1" then "-x" else b6
+    let bind6 := loc.endsWith "x"
+    let v4bound := !loc.startsWith "-"
+    let v6bound := !loc.endsWith "-"
     let addrs : List Dns.Addr := (List.range n).map fun i => { v6 := (kinds.getD i "").endsWith "6", id := i, port := 0 }
     let attOf := fun (kind : String) => (match kind with
       | "ok" => ({ lat := some 0, out := .ok } : Attempt)
@@ -85,7 +88,7 @@ def tcpcLine (inp obs : List String) : Bool × Bool × String × String :=
       | _ => { lat := some 0, out := .err })
     let errKind := fun (kind : String) =>
       if kind.endsWith "6" && bind6 then "bind" else if kind == "hang" then "ctimeout" else "refused"
-    let out := TcpConnect.connect (optTok t) (optTok conc) false bind6 addrs (fun a => attOf (kinds.getD a.id ""))
+    let out := TcpConnect.connect (optTok t) (optTok conc) v4bound v6bound addrs (fun a => attOf (kinds.getD a.id ""))
     let order := out.order
     let m := (out.res, out.st)
     let idOf := fun (j : Nat) => (order.getD j { v6 := false, id := 999, port := 0 }).id
@@ -109,12 +112,16 @@ def tcpcLine (inp obs : List String) : Bool × Bool × String × String :=
     -- a listener that accepted a connection belongs to a candidate the model starts
     let started := m.2.starts.map fun p => idOf p.1
     let extra := (accepted.zip (List.range n)).any fun (a, i) => a != "-" && a != "0" && !started.contains i
+    -- when every candidate answers at once (nobody hangs) and attempts run one at a time, who wins - or which
+    -- error is reported - is decided by nothing but the order in which the candidates are taken
+    let orderOnly := optTok conc == some 1 && !kinds.contains "hang"
     let cls : List String :=
       (if !outcomeOk then ["C10/tcp-wrong-outcome"] else []) ++
+      (if !outcomeOk && orderOnly then ["C16/tcp-attempts-not-in-sorted-order"] else []) ++
       (if outcomeOk && !timeOk then ["C11/tcp-pacing-or-deadline"] else []) ++
       (if extra then ["C11/tcp-candidate-started-out-of-turn"] else [])
     (cls.isEmpty, cls.isEmpty, if cls.isEmpty then "-" else ",".intercalate cls, shown)
-  | _, _ => (false, false, "C10/unparsable-observation", "")
+  | _, _ => (false, false, "C10/unparsable-observation,C16/unparsable-observation", "")
 
 end Hd.Eyeballs
 
